@@ -104,6 +104,9 @@ func (n *cnNet) ledgerProjection(t mkvs.ImmutableKeyValueTree) (map[string]any, 
 	if err != nil {
 		return nil, err
 	}
+	if _, err = n.vaultProjection(t); err != nil { // names the accounts of vaults (V0, V1, ...) before they are listed below
+		return nil, err
+	}
 	cp, _ := st.CommonPool(ctx)
 	lf, _ := st.LastBlockFees(ctx)
 	gd, _ := st.GovernanceDeposits(ctx)
